@@ -326,6 +326,7 @@ func run(c *mc.Ctx) {
 	// ------------------------------------------------------------------ audit themes (notes/THEMES.md): aliasing, reuse, special points, output shapes
 	themes(c, tor, lam, benc)
 	selfAliased(c, E)
+	encodeAfterHistory(c)
 
 	// ------------------------------------------------------------------ CompressedEdwardsY.Equal
 	nq := c.Pick(260, 700)
